@@ -3,6 +3,8 @@
 import AxVerif.Model.Bytes
 import AxVerif.Model.Cache
 import AxVerif.Model.Config
+import AxVerif.Driver.Sql
+import AxVerif.Driver.Hist
 namespace AxVerif.Cache
 open AxVerif
 
@@ -118,6 +120,18 @@ def step (D : Defects) (line : String) : String :=
     | some _, some n =>
       if decide (2 ≤ n ∧ n ≤ 64) && flagOk small && (splitOps rest).all gstmtOk then "same" else "bad-op"
     | _, _ => "bad-op"
+  | "sqlgrid" :: seed :: ncfg :: "|" :: _ =>
+    -- the same script under a grid of configurations: the answer is the logical model's answer to the script — a
+    -- function of the script alone, the model has no configuration argument
+    match nat? seed, nat? ncfg, line.splitOn " | " with
+    | some _, some n, _ :: rest =>
+      if decide (2 ≤ n ∧ n ≤ 64) then AxVerif.Drivers.sql [] (" | ".intercalate rest) else "bad-op"
+    | _, _, _ => "bad-op"
+  | "histgrid" :: seed :: ncfg :: "|" :: _ =>
+    match nat? seed, nat? ncfg, line.splitOn " | " with
+    | some _, some n, _ :: rest =>
+      if decide (2 ≤ n ∧ n ≤ 64) && (AxVerif.Db.Drv.parseCase (" | ".intercalate rest)).isSome then "same" else "bad-op"
+    | _, _, _ => "bad-op"
   | "gridx" :: page :: cache :: pool :: mk :: sib :: ckpt :: "|" :: rest =>
     match nat? page, nat? cache, nat? pool, nat? mk, nat? sib with
     | some page, some cache, some pool, some mk, some sib =>
